@@ -48,6 +48,16 @@ SHORT = {
  "C18_2": "`shrink*` writes the new capacity into the old header before `realloc`",
  "C19_1": "`deserialize_in_place` reserves by the raw size hint",
  "C19_2": "`deserialize_in_place` keeps stale tail elements",
+ "C02_7": "`From<&[T]>` bit-copies the slice instead of cloning each element",
+ "C04_5": "Drain's guard moves the tail back BEFORE dropping the rest of the window",
+ "C06_3": "`truncate`: `len > self_len` instead of `>=` (writes the length through the sentinel)",
+ "C09_3": "`next_aligned` by wrapping mask arithmetic (round-up wraps to 0 near `usize::MAX`)",
+ "C10_5": "Splice guard copies the tail from `drain_end_` instead of `remaining_pos_`",
+ "C13_3": "marker field `[T; 0]` instead of `PhantomData<T>` (the handle inherits T's alignment)",
+ "C14_3": "`as_mut_ptr` answers null when `capacity() == 0` (also for a vector that owns a block)",
+ "C15_3": "`partial_cmp` answers `Some(Equal)` at once when both sides are the same object",
+ "C18_3": "`grow` checks for a null result only when the capacity increases",
+ "C19_3": "in-place visitor reserves `len - hint` instead of `hint - len`",
  "C02_5": "Splice: `remaining_pos_` field removed, tail start taken from `drain_end_`",
  "C02_6": "new `IntoIter::nth` override whose overshoot path forgets the remaining elements",
  "C03_3": "Splice guard keeps the cached tail POINTER across `grow` (read of the released block)",
